@@ -47,7 +47,7 @@ def cases(tier, seed, args):
         out.append(dict(t='mask', fn=fn, n=n, ka=ka, da=da, keepdims=bool(i % 4 == 1),
                         shape=[int(rng.integers(1, 7)) for _ in range(n)], neg=bool(rng.integers(2)),
                         seed=int(rng.integers(1 << 30)), regime=['lat', 'tied', 'zero'][i % 3],
-                        sexp=[0, -20, 20, -26][(i // 5) % 4] if fn in ('ratio', 'icm', 'psm') else 0))
+                        sexp=[0, -20, 20, -26][(i // 5) % 4] if fn in ('ratio', 'icm', 'psm') else 0, single=bool(i % 3 == 1)))
     # quantile / lorenz
     for i in range(40 if q else 400):
         n = int(rng.integers(2, 5))
@@ -113,6 +113,9 @@ def run_case(case):
     lattice = sig
     if sexp:
         sig = sig * 2.0 ** sexp
+    single = bool(case.get('single')) and not sexp
+    if single:
+        sig = sig.astype(np.complex64)          # Gaussian integers are exact in single precision as well
     A = lambda a: a - n if neg else a
     rec = dict(kind='mask', fn=fn, shape=enc.shape(lattice), sig=enc.acint(lattice), ka=A(ka),
                da=0 if da is None else A(da), has_da=da is not None, keepdims=case['keepdims'],
@@ -173,8 +176,11 @@ def run_case(case):
                          weight=case['w'][0] / case['w'][1], keepdims=case['keepdims'], **kw2)
     if enc.digest(sig) != d0:
         exc = 'InputMutated'
+    rk = dict(rel=1e-6) if single else {}
     rec.update(exc=exc, out_shape=[] if out is None else enc.shape(out),
-               out=[] if out is None else (enc.acrat(out) if fn == 'icm' else enc.arat(np.real(out))),
-               fp=f'fn={fn};regime={case["regime"]};da={"none" if da is None else "given"};neg={neg};sexp={sexp}',
+               out=[] if out is None else (enc.acrat(out, **rk) if fn == 'icm' else
+                                           (enc.arat(np.real(out), **rk) if not np.iscomplexobj(out) or np.all(np.imag(out) == 0)
+                                            else [list(enc.IRR_R)] * int(np.size(out)))),
+               fp=f'fn={fn};regime={case["regime"]};da={"none" if da is None else "given"};neg={neg};sexp={sexp};single={single}',
                key=f'{fn}:{case["seed"]}')
     return [rec]
